@@ -20,7 +20,7 @@ pub struct C15Case {
 }
 
 /// repetitions actually run (enough to tell growth that settles from growth that goes on)
-pub const REPS: u8 = 7;
+pub const REPS: u8 = 9;
 
 fn raw(s: &str) -> PathSpec {
     PathSpec::Raw(s.to_string())
@@ -72,6 +72,18 @@ fn cycle_piece() -> BoxedStrategy<Vec<Op>> {
             Op::Overwrite { p: raw("/ow"), frac: 0, data: DataSpec { len: large, seed: seed.wrapping_add(1) } },
             Op::RemoveStream { p: raw("/ow") },
         ]),
+        // more than one MiniFAT sector's worth of mini streams, removed, then a reopen
+        1 => (any::<u8>(), any::<bool>()).prop_map(|(seed, strict)| vec![
+            Op::CreateStream { p: raw("/mf1"), data: DataSpec { len: 4000, seed } },
+            Op::CreateStream { p: raw("/mf2"), data: DataSpec { len: 4000, seed: seed.wrapping_add(1) } },
+            Op::CreateStream { p: raw("/mf3"), data: DataSpec { len: 3000, seed: seed.wrapping_add(2) } },
+            Op::RemoveStream { p: raw("/mf1") },
+            Op::RemoveStream { p: raw("/mf2") },
+            Op::RemoveStream { p: raw("/mf3") },
+            Op::Reopen { strict },
+        ]),
+        // a reopen inside the cycle
+        1 => (d(), any::<bool>()).prop_map(|(data, strict)| vec![Op::CreateStream { p: raw("/rc"), data }, Op::Reopen { strict }, Op::RemoveStream { p: raw("/rc") }]),
         // truncate to zero and refill
         1 => (any::<u16>(), d()).prop_map(|(_idx, data)| vec![
             Op::CreateStream { p: raw("/refill"), data },
@@ -197,7 +209,8 @@ fn report(c: &C15Case) -> CaseReport {
         // classify: growth that settles (last three repetitions equal) after a container
         // chain (directory / MiniFAT / mini stream; never shrunk by design) grew after
         // repetition 1, versus growth that goes on
-        let settles = sizes[n - 1] == sizes[n - 2] && sizes[n - 2] == sizes[n - 3];
+        // the listed findings grow exactly once, between repetition 2 and 3
+        let settles = sizes[2..].iter().all(|&s| s == sizes[2]);
         let first = containers[0];
         let last = containers[n - 1];
         let which = if last.2 > first.2 {
@@ -209,7 +222,14 @@ fn report(c: &C15Case) -> CaseReport {
         } else {
             "none"
         };
-        let key = if settles { format!("grow|settles|{}", which) } else { "grow|unbounded".to_string() };
+        let later_growth = sizes[3..].iter().zip(sizes[2..].iter()).filter(|(a, b)| a != b).count();
+        let key = if settles {
+            format!("grow|settles|{}", which)
+        } else if sizes[n - 1] == sizes[n - 2] && sizes[n - 2] == sizes[n - 3] && later_growth == 1 {
+            format!("grow|settles_late|{}", which)
+        } else {
+            "grow|unbounded".to_string()
+        };
         rep.fail = Some(Fail::new(
             key,
             format!(
@@ -238,7 +258,7 @@ pub fn def() -> PropDef {
     PropDef {
         id: "C15",
         level: "exploration",
-        rule: "prefix history (0-30 ops, optionally leaving 7/8/9/63/64/65/127/128/129 mini sectors in use) followed by 3-6 repetitions of a cycle composed of 1-3 generated pieces (create+write+remove of mini and regular sizes, storage subtree + remove_storage_all, grow + shrink back, overwrite with the same content, mini->regular->mini migration, handle-written stream, truncate-to-zero + refill); a case counts only if the model state after every repetition equals the state after the first (net-zero on the model, else counted in 'excluded'). Oracle: byte length of the image after repetition 2 == after every later repetition; all results are also compared with the model. Non-trivial = during the run some space was freed and space was allocated afterwards; distinct = distinct case JSON.",
+        rule: "prefix history (0-30 ops, optionally leaving 7/8/9/63/64/65/127/128/129 mini sectors in use) followed by 9 repetitions of a cycle composed of 1-3 generated pieces (create+write+remove of mini and regular sizes, storage subtree + remove_storage_all, grow + shrink back, overwrite with the same content, mini->regular->mini migration, handle-written stream, truncate-to-zero + refill); a case counts only if the model state after every repetition equals the state after the first (net-zero on the model, else counted in 'excluded'). Oracle: byte length of the image after repetition 2 == after every later repetition; all results are also compared with the model. Non-trivial = during the run some space was freed and space was allocated afterwards; distinct = distinct case JSON.",
         assumptions: &["repetition 1 may grow the file (the statement says 'from the second repetition on')"],
         quick_cases: 2500,
         thorough_cases: 30000,
